@@ -65,7 +65,9 @@ def get_utility_and_feasibility_function(
     # ==================================================================================
 
     arg_names = {"vf_arr"} | get_union_of_arguments(relevant_functions) - {"_period"}
-    arg_names = [arg for arg in arg_names if "next_" not in arg]  # type: ignore[assignment]
+    arg_names = [  # type: ignore[assignment]
+        arg for arg in arg_names if not arg.startswith("next_")
+    ]
 
     if is_last_period:
 
